@@ -3,6 +3,7 @@
 Implementation runner, structured generators, the direct oracle (every clause of the property restated
 naively on the real code) and the request builder for the Lean model (lean/Verif/C20)."""
 import copy
+import functools
 import importlib
 import io
 import json
@@ -37,8 +38,37 @@ def uncps(a):
     return "".join(chr(x) for x in a)
 
 
+class _Bound:
+    """the indexedmrs module with the harness's SEM-I bound to its pickle-API functions"""
+    def __init__(self, mod, semi):
+        self._mod, self._semi = mod, semi
+
+    def __getattr__(self, a):
+        v = getattr(self._mod, a)
+        if a in ("load", "loads", "decode", "dump", "dumps", "encode"):
+            return functools.partial(v, semi=self._semi)
+        return v
+
+
+def _make_semi():
+    """a SEM-I that licenses exactly the predicates of lead_item / gen_indexed_item (no variable properties)"""
+    from delphin import semi as _semi
+    preds = {}
+    for i in range(8):
+        roles = [{"name": "ARG0", "value": "e"}] + ([{"name": "ARG1", "value": "e"}] if i else [])
+        preds["_p%d_v_1" % i] = {"parents": [], "synopses": [{"roles": roles}]}
+    return _semi.SemI.from_dict({
+        "variables": {"u": {"parents": []}, "i": {"parents": ["u"]}, "p": {"parents": ["u"]}, "h": {"parents": ["p"]},
+                      "e": {"parents": ["i"]}, "x": {"parents": ["i", "p"]}},
+        "properties": {}, "roles": {"ARG0": {"value": "i"}, "ARG1": {"value": "u"}}, "predicates": preds})
+
+
+SEMI = _make_semi()
+
+
 def codec(name):
-    return util.import_codec(name)
+    m = util.import_codec(name)
+    return _Bound(m, SEMI) if name == "indexedmrs" else m
 
 
 ALL_CODECS = sorted(util.namespace_modules(delphin.codecs))
@@ -434,6 +464,61 @@ def gen_eds_item(rng, tricky=False, rich=None, connected=True):
     return j
 
 
+LEXER_SOURCES = ["simplemrs", "simpledmrs", "eds", "indexedmrs"]       # util.Lexer / LookaheadIterator based readers
+CHUNKED_SOURCES = ["mrx", "dmrx", "mrsjson", "dmrsjson", "edsjson"]   # ElementTree.iterparse / json.load
+
+
+def gen_indexed_item(rng, tricky=False, rich=None):
+    """an MRS the harness's SEM-I licenses: a chain of 1-8 predications _p0_v_1 .. in one scope, some with a lnk"""
+    j = lead_item("mrs", 0)
+    m = rng.randrange(1, 9)
+    j["rels"] = j["rels"][:m]
+    for k, ep in enumerate(j["rels"]):
+        if rng.random() < 0.5:
+            ep["lnk"] = _span(rng, k)
+    return j
+
+
+def lexer_of(name):
+    m = util.import_codec(name)
+    for a in dir(m):
+        v = getattr(m, a)
+        if isinstance(v, util.Lexer):
+            return v
+    return None
+
+
+def count_tokens(name, text):
+    """number of lexer tokens of a source text, counted with the codec's own token table"""
+    lx = lexer_of(name)
+    if lx is None:
+        return None
+    return sum(1 for _ in lx.prelex(text.splitlines()))
+
+
+def lead_item(rep, k):
+    """an item with 8 predications/nodes of which the first k carry a lnk: every lnk is exactly one more
+    lexer token in SimpleMRS, SimpleDMRS and native EDS, so the family k = 0..7 moves every later item boundary
+    of a document one token at a time"""
+    if rep == "mrs":
+        rels = []
+        for i in range(8):
+            args = [["ARG0", ["e", 10 + i]]] + ([["ARG1", ["e", 9 + i]]] if i else [])
+            rels.append({"pred": "_p%d_v_1" % i, "label": ["h", 1], "args": args, "carg": None,
+                         "lnk": [2 * i, 2 * i + 1] if i < k else None, "surface": None, "base": None})
+        return {"top": ["h", 0], "index": ["e", 10], "rels": rels, "hcons": [[["h", 0], "qeq", ["h", 1]]],
+                "icons": [], "vars": []}
+    if rep == "dmrs":
+        nodes = [{"id": 10000 + i, "pred": "_p%d_v_1" % i, "type": "e", "props": [], "carg": None,
+                  "lnk": [2 * i, 2 * i + 1] if i < k else None, "surface": None, "base": None} for i in range(8)]
+        links = [[10000 + i, 10000 + i - 1, "ARG1", "NEQ"] for i in range(1, 8)]
+        return {"top": 10000, "index": 10000, "nodes": nodes, "links": links}
+    nodes = [{"id": "e%d" % (10 + i), "pred": "_p%d_v_1" % i, "type": "e",
+              "edges": [["ARG1", "e%d" % (9 + i)]] if i else [], "props": [], "carg": None,
+              "lnk": [2 * i, 2 * i + 1] if i < k else None, "surface": None, "base": None} for i in range(8)]
+    return {"top": "e10", "nodes": nodes}
+
+
 DUP_MODES = ["adjacent", "nonadjacent", "allsame"]
 
 
@@ -514,8 +599,9 @@ class C20(Check):
         "generators keep out inputs of known codec/converter defects so that only assembly/glue is judged: no DMRS node "
         "of type 'u' (F11), no MRS with mutual non-scopal arguments in one scope (F08), no empty property values, no "
         "newline inside a string, no predicate containing brackets or quotes",
-        "indexedmrs (needs a SEM-I that licenses every predicate, role list and complete property list) is exercised only "
-        "for name parsing / codec selection, not with generated items",
+        "indexedmrs is exercised with a harness-made SEM-I and the items it licenses (chains of 1-8 predications without "
+        "variable properties), as long source, small source and target; it is not part of the random pair matrix and "
+        "of the transcoding clause",
         "the readers of the model work at item-boundary level (bracket depth with double-quoted strings; XML tag depth); "
         "that every real item text is such an item is checked on every generated conversion (driver answer 'items_ok'), "
         "not proved",
@@ -554,6 +640,99 @@ class C20(Check):
                 "true" if hasattr(m, "load") else "false", "true" if hasattr(m, "encode") else "false"))
         out.append(",\n".join(rows))
         out.append("]")
+        out.extend(self.pin_tables())
+        return out
+
+    def pin_tables(self):
+        """Pins: constants of the anchored code that the model / oracle hand-code an equivalent of, read from the
+        live code objects, argument defaults, module attributes and by probing _get_converter from outside."""
+        import types
+        from delphin.cli import convert as cli
+        lit = tables.lean_strlit
+
+        def consts(fn, drop=()):
+            out = []
+
+            def walk(code):
+                for c in code.co_consts:
+                    if isinstance(c, types.CodeType):
+                        walk(c)
+                    elif isinstance(c, tuple):
+                        out.append("|".join(str(x) for x in c))
+                    elif c is None or c == fn.__doc__:
+                        continue
+                    elif isinstance(c, str):
+                        if any(c.startswith(d) or d in c for d in drop):
+                            continue        # log / exception message texts are not pinned
+                        out.append(c)
+                    else:
+                        out.append(repr(c))
+            walk(fn.__code__)
+            return out
+
+        def strlist(name, xs, doc):
+            return ["/-- %s -/" % doc, "def %s : List String := [%s]" % (name, ", ".join(lit(x) for x in xs))]
+        msgs = ("Exactly 1 column", "could not convert", "invalid codec", " -> ", " conversion is not supported",
+                "no conversion necessary", "item %d", "converting...")
+        out = []
+        out += strlist("c20ConvertConsts", consts(commands.convert, msgs),
+                       "string/number constants of `commands.convert` (docstring and message texts left out)")
+        sig = __import__("inspect").signature(commands.convert)
+        out += strlist("c20ConvertDefaults", ["%s=%r" % (k, v.default) for k, v in sig.parameters.items()
+                                               if v.default is not v.empty],
+                       "default arguments of `commands.convert`")
+        exc = lambda fn: [n for n in fn.__code__.co_names if n.endswith("Error") or n.endswith("Exception")]
+        out += strlist("c20ConvertCaught", exc(commands.convert),
+                       "exception names in `commands.convert` (CommandError raised; the encode loop's except clause)")
+        out += strlist("c20IterConvertCaught", exc(commands._iter_convert), "exception names in `_iter_convert`")
+        out += strlist("c20GetCodecCaught", exc(commands._get_codec), "exception names in `_get_codec`")
+        out += strlist("c20ParseNameConsts", consts(commands._parse_format_name), "constants of `_parse_format_name`")
+        out += strlist("c20ParseNameNames", list(commands._parse_format_name.__code__.co_names),
+                       "methods called by `_parse_format_name`")
+        out += strlist("c20GetConverterConsts", consts(commands._get_converter, msgs), "constants of `_get_converter`")
+        out += strlist("c20ReadNames", list(commands._read.__code__.co_names) + consts(commands._read),
+                       "names and constants used by `_read` (file / stream / profile-directory reader)")
+        out += strlist("c20ReadLinesNames", list(commands._read_lines.__code__.co_names)
+                       + list(commands._read_file.__code__.co_names), "names used by `_read_lines` and `_read_file`")
+        out += strlist("c20IterConvertNames", [n for n in commands._iter_convert.__code__.co_names],
+                       "names used by `_iter_convert`")
+        # converter pair table probed from outside
+        reps = ["mrs", "dmrs", "eds", "MRS", "Dmrs", "other"]
+        rows = []
+        for a in reps:
+            for b in reps:
+                fa = types.SimpleNamespace(CODEC_INFO={"representation": a})
+                fb = types.SimpleNamespace(CODEC_INFO={"representation": b})
+                try:
+                    r = 0 if commands._get_converter(fa, fb, False) is None else 1
+                except commands.CommandError:
+                    r = 2
+                rows.append("(%s, %s, %d)" % (tables.lean_str(a), tables.lean_str(b), r))
+        out += ["/-- `_get_converter` probed with stand-in codecs: (source representation, target representation, "
+                "0 = no converter (identity) / 1 = a converter / 2 = CommandError) -/",
+                "def c20ConverterProbe : List (List Char × List Char × Nat) := [%s]" % ", ".join(rows)]
+        # which codec module defines which of the pickle-API functions
+        fns = ("load", "loads", "decode", "dump", "dumps", "encode")
+        caps = []
+        frames = []
+        for name, full in sorted(util.namespace_modules(delphin.codecs).items()):
+            m = importlib.import_module(full)
+            caps.append("%s:%s:%s" % (name, m.CODEC_INFO["representation"],
+                                      ",".join(f for f in fns if hasattr(m, f))))
+
+            def fr(a):
+                v = getattr(m, a, None)
+                if v is None:
+                    return "<undefined>"
+                return v if len(v) <= 40 else "<%d chars>" % len(v)
+            frames.append("%s:%s:%s:%s" % (name, fr("HEADER"), fr("JOINER"), fr("FOOTER")))
+        out += strlist("c20CodecCaps", caps, "codec module : representation : which of load/loads/decode/dump/dumps/encode it defines")
+        out += strlist("c20FramePins", frames, "codec module : HEADER : JOINER : FOOTER (long LaTeX preamble/postamble by length)")
+        # the command-line front end: defaults and the indent handling constants
+        ns = vars(cli.parser.parse_args([]))
+        out += strlist("c20CliDefaults", ["%s=%r" % (k, ns[k]) for k in sorted(ns) if k != "func"],
+                       "`delphin convert` argument defaults (parser.parse_args([]))")
+        out += strlist("c20CliConsts", consts(cli.call_convert), "constants of `cli.convert.call_convert`")
         return out
 
     # ---- temp files
@@ -579,8 +758,10 @@ class C20(Check):
         n = rng.choice([0, 1, 1, 2, 2, 3, 3, 4, 5]) if n is None else n
         tricky = rng.random() < 0.5
         penman = "penman" in tgt or "penman" in src
+        gen = gen_indexed_item if ("indexedmrs" in (src, tgt) or over.pop("indexed", False)) else GEN[rep]
+
         def fresh():
-            return GEN[rep](rng, tricky and not penman)
+            return gen(rng, tricky and not penman)
         items = [fresh() for _ in range(n)]
         dup = over.pop("dup", None)
         if dup is None and n >= 1 and rng.random() < 0.4:
@@ -647,6 +828,22 @@ class C20(Check):
         for q in range(len(SELECTS)):
             yield self.mk_case(rng, "simplemrs", rng.choice(["mrsjson", "mrx", "simplemrs", "dmrx", "eds"]), n=5,
                                input="dir", src="simplemrs", select=q)
+        # --- LONG SOURCES, in every run: lexer-based sources beyond one and two LookaheadIterator buffers (1024 tokens),
+        #     XML/JSON sources beyond 16 KiB and 64 KiB, through every input kind, to same- and cross-representation
+        #     targets with and without '-lines'
+        yield from self.long_cases(rng)
+        # --- Indexed MRS (items licensed by the harness's SEM-I) as source and as target
+        kk = 0
+        for s, t in (("indexedmrs", "simplemrs"), ("simplemrs", "indexedmrs"), ("indexedmrs", "indexedmrs-lines"),
+                     ("indexedmrs-lines", "dmrx"), ("mrsjson", "indexedmrs"), ("indexedmrs", "eds-json"),
+                     ("mrx-lines", "indexed-mrs-lines"), ("indexedmrs", "mrs-prolog")):
+            for nn in (0, 2, 3):
+                for ind in (None, 2):
+                    kk += 1
+                    yield self.mk_case(rng, norm_name(s)[0], norm_name(t)[0], n=nn, src=s, tgt=t, indent=ind,
+                                       input=("path", "stream", "file", "pathobj", "dir")[kk % 5]
+                                       if not norm_name(s)[1] else ("path", "stream", "file")[kk % 3],
+                                       dup=(["none"] + DUP_MODES)[kk % 4] if nn else "none")
         # --- duplicates (identical items adjacent / non-adjacent / all the same) for EVERY input kind, every
         #     selection query, and the '-lines' sources
         for mode in DUP_MODES:
@@ -672,6 +869,49 @@ class C20(Check):
             for nn in (1, 3, 4):
                 yield self.isolation_case(rng, s, t, nn)
         yield from self.random_cases(rng, n)
+
+    def long_cases(self, rng):
+        lrng = __import__("random").Random(20)      # the same long documents in every run
+        kinds = ["path", "stream", "file", "dir", "pathobj", "stream", "path", "dir"]
+        tg = {"mrs": ["mrsjson", "dmrx-lines", "simplemrs-lines", "eds", "mrx", "simpledmrs", "mrsjson-lines", "edsjson"],
+              "dmrs": ["dmrsjson", "mrx-lines", "simpledmrs-lines", "simplemrs", "dmrx", "mrsjson", "dmrsjson-lines",
+                       "dmrspenman"],
+              "eds": ["edsjson", "eds-lines", "edspenman", "eds", "edsjson-lines", "edsjson", "eds", "edspenman-lines"]}
+
+        def long_case(s, items, k, **over):
+            c = self.mk_case(lrng, s, norm_name(tg[REP[s]][k % 8])[0], n=0, dup="none", src=s, tgt=tg[REP[s]][k % 8],
+                             input=kinds[k % 8], select=k % 2, src_indent=None, indent=[None, 2][k % 2])
+            c["items"] = items
+            c["long"] = True
+            c.update(over)
+            return c
+        for s in LEXER_SOURCES:
+            rep = REP[s]
+            sc = codec(s)
+            for threshold in (1024, 2048):
+                common = []
+                while True:
+                    common.append((gen_indexed_item if s == "indexedmrs" else GEN[rep])(lrng, False, rich=False))
+                    objs = [build_item(rep, j) for j in [lead_item(rep, 7)] + common]
+                    if count_tokens(s, sc.dumps(objs, indent=None)) > threshold + 40 or len(common) >= 70:
+                        break
+                for k in range(8):
+                    yield long_case(s, [lead_item(rep, k)] + copy.deepcopy(common), k + (1 if threshold == 2048 else 0))
+        for i, s in enumerate(CHUNKED_SOURCES):
+            rep = REP[s]
+            sc = codec(s)
+            for j, size in enumerate((16 * 1024, 64 * 1024)):
+                items = []
+                while True:
+                    items.append(GEN[rep](lrng, True, rich=True))
+                    if len(sc.dumps([build_item(rep, x) for x in items], indent=2)) > size + 512 or len(items) >= 90:
+                        break
+                yield long_case(s, items, 2 * i + j, src_indent=2)
+                yield long_case(s, copy.deepcopy(items), 2 * i + j + 3, src_indent=2)
+        for s, nn in (("dmrspenman", 30), ("edspenman", 30), ("ace", 20)):
+            rep = REP[s]
+            yield long_case(s, [GEN[rep](lrng, False, rich=False) for _ in range(nn)], 1 if s != "ace" else 5,
+                            **({"input": "stream"} if s == "ace" else {}))
 
     def isolation_case(self, rng, s, t, nn):
         """some items carry a link/edge to a node that does not exist: the source formats keep it, the target's
@@ -785,7 +1025,8 @@ class C20(Check):
                             arg = fh
                 out = commands.convert(arg, case["src"], case["tgt"], select=SELECTS[case["select"]][0],
                                        properties=case["properties"], lnk=case["lnk"], indent=case["indent"],
-                                       predicate_modifiers=case["predmod"])
+                                       predicate_modifiers=case["predmod"],
+                                       semi=SEMI if "indexedmrs" in (src, tgt) else None)
                 return out, None
         except commands.CommandError:
             return None, "CommandError"
@@ -833,6 +1074,16 @@ class C20(Check):
 
     # ---- what each item gives on its own (shared by the model request and the oracle)
     def per_item(self, case):
+        """memo of _per_item for the case last asked about (model request, expectation and oracle share it)"""
+        key = json.dumps(case, sort_keys=True)
+        last = getattr(self, "_last_per", None)
+        if last is not None and last[0] == key:
+            return last[1]
+        res = self._per_item(case)
+        self._last_per = (key, res)
+        return res
+
+    def _per_item(self, case):
         """for every selected input item: ('ok', encoded text, converted object) | ('encFail',) | ('convFail',)
         | ('own', error) when the item cannot be read/converted/encoded on its own for another reason"""
         src, sl, tgt, tl = self._names(case)
@@ -990,7 +1241,7 @@ class C20(Check):
                              repr((tgt, n, out[:200], ref[:200])))
             # (c) same-representation transcoding there and back
             if REP[src] == REP[tgt] and not tl and tgt in READABLE and src != "ace" and src in WRITABLE \
-                    and not case.get("isolation"):
+                    and not case.get("isolation") and "indexedmrs" not in (src, tgt):
                 try:
                     back_txt = commands.convert(io.StringIO(out), tgt, src, properties=case["properties"],
                                                 lnk=case["lnk"], indent=case["indent"])
@@ -1020,6 +1271,8 @@ class C20(Check):
             if err2 is not None or out2 != out:
                 fail("converting the same input twice in one process gives different text",
                      repr((src, tgt, err2, (out2 or "")[:200], out[:200])))
+            if case.get("long"):
+                return fails
             other = dict(case)
             other["indent"] = 2 if case["indent"] is None else None
             alts = [x for x in TARGETS if supported(src, x) and x != tgt]
@@ -1094,6 +1347,19 @@ class C20(Check):
         inc("input:" + case["input"])
         inc("indent:" + str(case["indent"]))
         inc("dup:" + case.get("dup", "none"))
+        if case.get("long"):
+            inc("long")
+            inc("long:src=" + s + ":" + case["input"])
+            try:
+                _, doc = self._source_texts(case, s, sl)
+                nt = count_tokens(s, doc) if s in LEXER_SOURCES else None
+                if nt is not None:
+                    inc("long:lexer-tokens>%d" % (2048 if nt > 2048 else 1024 if nt > 1024 else 0))
+                else:
+                    inc("long:chars>%dKiB" % (64 if len(doc) > 65536 else 16 if len(doc) > 16384 else 0))
+                inc("long:items>=%d" % (10 * (len(case["items"]) // 10)))
+            except Exception:
+                pass
         texts = [json.dumps(j, sort_keys=True) for j in case["items"]]
         if len(set(texts)) < len(texts):
             inc("has_identical_items")
